@@ -836,6 +836,16 @@ def ir_signature(text, name, defs):
     return "%s (%s)" % (ir_resolve(ret, defs), ";".join(clean))
 
 
+def abi_top(sig):
+    """register-level view of a printed signature: every pointer is just a pointer"""
+    m = re.match(r"(.*?) \((.*)\)$", sig)
+    if not m:
+        return sig
+    def cls(t):
+        return "ptr" if t.endswith("*") else t
+    return "%s (%s)" % (cls(m.group(1)), ";".join(cls(p) for p in m.group(2).split(";") if p))
+
+
 # ---- header probe -----------------------------------------------------------------------------------
 HEADER_FIELDS = {
     "ddpstring": ["str", "cap"], "ddpany": ["vtable_ptr", None], "ddpintlist": ["arr", "len", "cap"],
@@ -973,26 +983,38 @@ def run_group(b, gdir, group, in_function, opts, asan, want_ir):
         for o in opts[variant]:
             exe = os.path.join(gdir, "%s_O%d" % (variant, o))
             r = b.compile(os.path.join(gdir, src), exe, opt=o, cwd=gdir, extra_objs=[os.path.join(gdir, "callee.o")])
+            if r["stage"] == "kddp" and r["rc"] == -9:   # overloaded machine: once more with a generous limit
+                r = b.compile(os.path.join(gdir, src), exe, opt=o, cwd=gdir, extra_objs=[os.path.join(gdir, "callee.o")], timeout=900)
             run = dict(variant=variant, opt=o, asan=False, compile=r)
             if r["stage"] == "ok":
                 led = exe + ".ledger"
                 rc, out, err = b.run(exe, ledger=led, cwd=gdir, timeout=30)
+                if rc == -9:
+                    rc, out, err = b.run(exe, ledger=led, cwd=gdir, timeout=300)
                 run.update(rc=rc, out=out.decode("utf-8", "replace"), err=err.decode("utf-8", "replace"), ledger=parse_ledger(led))
             res["runs"].append(run)
         if asan:
             exe = os.path.join(gdir, "%s_asan" % variant)
             r = b.compile(os.path.join(gdir, src), exe, opt=0, asan=True, cwd=gdir, extra_objs=[os.path.join(gdir, "callee_asan.o")])
+            if r["stage"] == "kddp" and r["rc"] == -9:
+                r = b.compile(os.path.join(gdir, src), exe, opt=0, asan=True, cwd=gdir, extra_objs=[os.path.join(gdir, "callee_asan.o")], timeout=900)
             run = dict(variant=variant, opt=0, asan=True, compile=r)
             if r["stage"] == "ok":
                 led = exe + ".ledger"
                 rc, out, err = b.run(exe, ledger=led, cwd=gdir, timeout=60)
+                if rc == -9:
+                    rc, out, err = b.run(exe, ledger=led, cwd=gdir, timeout=600)
                 run.update(rc=rc, out=out.decode("utf-8", "replace"), err=err.decode("utf-8", "replace"), ledger=parse_ledger(led))
             res["runs"].append(run)
     if want_ir:
         env = dict(os.environ, DDPPATH=b.dir)
         for variant, src, extra in (("decl", "a.ddp", []), ("import", "b.ddp", ["--module-linken=false"])):
             ll = os.path.join(gdir, variant + ".ll")
-            p = subprocess.run([b.kddp, "kompiliere", src, "-o", ll, "-O", "0"] + extra, capture_output=True, text=True, env=env, cwd=gdir, timeout=120)
+            try:
+                p = subprocess.run([b.kddp, "kompiliere", src, "-o", ll, "-O", "0"] + extra, capture_output=True, text=True, env=env, cwd=gdir, timeout=900)
+            except subprocess.TimeoutExpired:
+                res["ir"][variant] = None
+                continue
             if p.returncode == 0 and os.path.exists(ll):
                 text = open(ll).read()
                 defs = ir_types(text)
@@ -1025,6 +1047,9 @@ def judge_run(run, g):
 
 
 def check_group(ck, b, model, sc, gi, group, in_function, opts, asan, stats, shrink=True):
+    if len(ck.violations) >= 10:   # systematically broken tree: enough replays, do not burn the time budget
+        stats["skipped_groups"] = stats.get("skipped_groups", 0) + 1
+        return
     gdir = os.path.join(sc, "g%d" % gi)
     res = run_group(b, gdir, group, in_function, opts, asan, want_ir=True)
     g = res["g"]
@@ -1051,7 +1076,7 @@ def check_group(ck, b, model, sc, gi, group, in_function, opts, asan, stats, shr
     for c, line in zip(g["calls"], mo):
         parts = line.split(" | ")
         fn = c["fn"]
-        irm = parts[0].split(" ", 2)[2]
+        irm = {"decl": parts[0].split(" ", 2)[2], "import": parts[5].split(" ", 2)[2]}
         stats["model_cases"] += 1
         if parts[2] != "ABI 1" or not parts[4].startswith("RUN ok"):
             stats["model_mismatch"].append("model self-check fails for %s: %s" % (sig_key(fn), line))
@@ -1068,9 +1093,12 @@ def check_group(ck, b, model, sc, gi, group, in_function, opts, asan, stats, shr
                 continue
             real = irs.get(fn["name"])
             stats["ir_compared"] += 1
-            if real != irm:
-                # is it a violation of the published convention (spec) or only a model disagreement?
-                failed.append(("ir-signature", "ir-signature", "module=%s: kddp declares %s(%s), published convention/model: %s" % (variant, fn["name"], real, irm), dict(variant=variant, opt=0, asan=False)))
+            if real != irm[variant]:
+                if real is not None and abi_top(real) == abi_top(irm[variant]):
+                    # same registers/stack slots, different pointee spelling: the model no longer matches the code
+                    stats["model_mismatch"].append("IR signature of %s in module=%s: kddp %s, model %s (same ABI classes at top level)" % (sig_key(fn), variant, real, irm[variant]))
+                else:
+                    failed.append(("ir-signature", "ir-signature", "module=%s: kddp declares %s(%s), published convention/model: %s" % (variant, fn["name"], real, irm[variant]), dict(variant=variant, opt=0, asan=False)))
     for fn in group:
         for c in fn["calls"]:
             ck.nontrivial((sig_key(fn), json.dumps(c, sort_keys=True, default=str)))
@@ -1081,9 +1109,17 @@ def check_group(ck, b, model, sc, gi, group, in_function, opts, asan, stats, shr
         stats["ret_kinds"][fn["ret"] or "-"] = stats["ret_kinds"].get(fn["ret"] or "-", 0) + 1
     if not failed:
         return
-    # shrink: single functions, then single calls
+    # shrink: one function with one call, built only in the failing flavour
     culprit = None
-    if shrink and len(group) > 1 or shrink and any(len(fn["calls"]) > 1 for fn in group):
+    cls0, _, _, run0 = failed[0]
+    stats["shrunk"] = stats.get("shrunk", 0) + 1
+    if shrink and stats["shrunk"] <= 4 and (len(group) > 1 or any(len(fn["calls"]) > 1 for fn in group)):
+        v0 = run0["variant"] if run0 else "decl"
+        sopts = {"decl": [], "import": []}
+        if run0 and not run0.get("asan"):
+            sopts[v0] = [run0["opt"]]
+        if cls0 in ("callee", "ir-signature"):
+            sopts = {"decl": [0], "import": []}
         cand = []
         for fn in group:
             for c in fn["calls"]:
@@ -1091,24 +1127,27 @@ def check_group(ck, b, model, sc, gi, group, in_function, opts, asan, stats, shr
                 f1["calls"] = [c]
                 cand.append(f1)
         for j, f1 in enumerate(cand):
-            sub = check_single(b, model, os.path.join(sc, "g%d_s%d" % (gi, j)), f1, in_function, opts, asan)
+            sub = check_single(b, model, os.path.join(sc, "g%d_s%d" % (gi, j)), f1, in_function, sopts, bool(run0 and run0.get("asan")), cls0 == "ir-signature", v0)
             if sub:
-                culprit = (f1, sub)
+                culprit = (f1, sub, os.path.join(sc, "g%d_s%d" % (gi, j)))
                 break
     if culprit:
-        f1, sub = culprit
+        f1, sub, sdir = culprit
         cls, detail, run = sub
-        report(ck, f1, cls, detail, run, in_function, os.path.join(sc, "g%d" % gi))
+        report(ck, f1, cls, detail, run, in_function, sdir)
     else:
         cls, what, detail, run = failed[0]
         report(ck, group[0] if len(group) == 1 else None, cls, detail, run, in_function, gdir, group=group)
 
 
-def check_single(b, model, gdir, fn, in_function, opts, asan):
-    res = run_group(b, gdir, [fn], in_function, opts, asan, want_ir=True)
+def check_single(b, model, gdir, fn, in_function, opts, asan, want_ir, asan_variant="decl"):
+    res = run_group(b, gdir, [fn], in_function, opts, False, want_ir=want_ir)
     g = res["g"]
     if res["cc"]:
         return ("callee", res["cc"], None)
+    if asan:
+        res2 = run_group(b, gdir + "a", [fn], in_function, {"decl": [], "import": []}, True, want_ir=False)
+        res["runs"] += [r for r in res2["runs"] if r["variant"] == asan_variant]
     for run in res["runs"]:
         bad = judge_run(run, g)
         if bad:
@@ -1117,12 +1156,14 @@ def check_single(b, model, gdir, fn, in_function, opts, asan):
             spec, _ = judge_ledger(run["ledger"], run["err"], g["calls"])
             if spec:
                 return ("ledger", spec[0], run)
-    mo = subprocess.run([model], input=model_line(fn, g["calls"][0]["kinds"]) + "\n", capture_output=True, text=True, timeout=60).stdout.splitlines()
-    irm = mo[0].split(" | ")[0].split(" ", 2)[2]
-    for variant in ("decl", "import"):
-        irs = res["ir"].get(variant)
-        if irs is not None and irs.get(fn["name"]) != irm:
-            return ("ir-signature", "module=%s: kddp declares %s, published convention/model: %s" % (variant, irs.get(fn["name"]), irm), dict(variant=variant, opt=0, asan=False))
+    if want_ir:
+        mo = subprocess.run([model], input=model_line(fn, g["calls"][0]["kinds"]) + "\n", capture_output=True, text=True, timeout=60).stdout.splitlines()
+        mparts = mo[0].split(" | ")
+        irm = {"decl": mparts[0].split(" ", 2)[2], "import": mparts[5].split(" ", 2)[2]}
+        for variant in ("decl", "import"):
+            irs = res["ir"].get(variant)
+            if irs is not None and irs.get(fn["name"]) != irm[variant]:
+                return ("ir-signature", "module=%s: kddp declares %s, published convention/model: %s" % (variant, irs.get(fn["name"]), irm[variant]), dict(variant=variant, opt=0, asan=False))
     return None
 
 
@@ -1171,6 +1212,7 @@ def main():
     ck.cov["trusted_base"] = vlib.TRUSTED_COMMON + [
         "Lower/Abi.v transcribes compiler.go VisitFuncDecl 557-605 / declareImportedFuncDecl 2187-2228 / VisitFuncCall 2015-2117, helper.go toIrType/toIrParamType/mangledNameDecl and ddptypes.h; tied on every run by: header static assertions (gcc), the textual IR signature of every generated function in both modules, the executed calls",
         "ABI classes: LLVM i1 and C bool are identified (one byte holding 0/1; LLVM passes i1 without zeroext — the callee prints the raw byte it received), the vtable pointer is an untyped byte pointer; x86-64 SysV lowering of both sides by LLVM 14 and gcc is outside the model and only differentially tested",
+        "kddp emits no zeroext/signext on i1/i8/i32 parameters and results; the callees here are compiled by gcc, which does not rely on the caller's extension of sub-register arguments (a clang-compiled callee would) — not exercised",
         "generic extern functions (ddpgenericlist / i8* parameters) and Windows are outside the model and the generator",
         "caller-side ownership is observed through the --wrap=ddp_reallocate ledger and the block addresses the generated callee reports on stderr; sha256 of the module name is an opaque function in the mangling model (unmangled extern symbols are observed by the link step)",
     ]
@@ -1200,7 +1242,7 @@ def main():
         ck.finish()
 
     nsig = 150 if ck.quick else 3000
-    per_group = 6
+    per_group = 6 if ck.quick else 10
     sigs = gen_signatures(ck.rng, nsig)
     fns = [gen_function(ck.rng, "f_%d" % (i + 1), ps, ret) for i, (ps, ret) in enumerate(sigs)]
     groups = [fns[i:i + per_group] for i in range(0, len(fns), per_group)]
